@@ -6,6 +6,16 @@ import LentilVerif.Gen.TiltFit
 takes them as an argument). Generic in the scalar type. Mathlib-free. -/
 namespace Lentil
 
+/-- `np.polyval(p, x)`: Horner evaluation, coefficients in decreasing powers -/
+def polyval {R : Type} [Add R] [Mul R] [RealLike R] (p : List R) (x : R) : R :=
+  p.foldl (fun acc c => acc * x + c) (RealLike.ofInt 0)
+
+/-- `np.polyder(p)`: coefficients of the derivative, decreasing powers -/
+def polyder {R : Type} [Mul R] [RealLike R] : List R → List R
+  | [] => []
+  | [_] => []
+  | c :: d :: rest => (RealLike.ofInt ((d :: rest).length) * c) :: polyder (d :: rest)
+
 /-- objects implementing the tilt interface `shift(xs, ys, z, wavelength)` -/
 inductive TiltEl (R : Type) where
   /-- `lentil.Tilt(x=xArg, y=yArg)` -/
